@@ -205,6 +205,21 @@ def check_walker(fn, what, kind, bad):
                     if not adds:
                         bad('C15-dedup', f'{what}: a node that passed the identity test is not recorded '
                                          f'as visited: a shared object is expanded more than once')
+    # the visited set only grows: an object stays "seen" for the whole walk (a later occurrence of a
+    # shared object - also after its first expansion has finished - is not expanded again)
+    all_vis = {e[2] for bp in body for e in bp.events() if e[1] == 'call:add'}
+    shrink = ('call:discard', 'call:remove', 'call:pop', 'call:clear', 'call:difference_update',
+              'call:intersection_update', 'call:symmetric_difference_update', 'call:__delitem__')
+    for bp in body:
+        for e in bp.events():
+            if e[1] in shrink and e[2] in all_vis:
+                bad('C15-dedup', f'{what}: the visited set shrinks ({P.tfmt(e[2])}.{e[1][5:]}) during the walk: a '
+                                 f'shared object or container met again later is expanded a second time')
+            if e[1] == 'assign' and ('OBJ', e[2]) in all_vis:
+                bad('C15-dedup', f'{what}: the visited set {e[2]} is rebound inside the work loop')
+        for s in bp.steps:
+            if s[0] == 'E' and s[1] == 'del' and any(x in all_vis for x in P.subterms(s[2])):
+                bad('C15-dedup', f'{what}: an entry of the visited set is deleted during the walk')
     return paths, body, W, NODE, helpers, stats
 
 
